@@ -415,7 +415,7 @@ func (w *Worker) explore(prefix []Event, covers map[string]bool, aggMu *sync.Mut
 		} else if end.status == "ok" {
 			// reservoir-free sampling: first few, then with small probability
 			aggMu.Lock()
-			take := len(res.Samples) < e.sampleN && (res.Paths <= 3 || w.rng.Intn(20) == 0 || p.symForks > 3 && w.rng.Intn(4) == 0)
+			take := len(res.Samples) < e.sampleN && (e.sampleN >= 1000 || res.Paths <= 3 || w.rng.Intn(20) == 0 || p.symForks > 3 && w.rng.Intn(4) == 0)
 			aggMu.Unlock()
 			if take {
 				s := w.sample(p, in, end)
